@@ -34,6 +34,14 @@ def gen_cases(ck):
                       "p_rev": float(ck.rng.choice([0.0, 0.5])), "shifts": True, "relabel": bool(ck.rng.integers(2)),
                       "fit": ["dlite", "taubinSVD"][int(ck.rng.integers(2))], "method": [None, None, "lsq", "lsq_linear"][int(ck.rng.integers(4))],
                       "ne": [None, None, int(ck.rng.integers(2, 13))][int(ck.rng.integers(3))]})
+    for i in range(6 if ck.tier == "quick" else 40):
+        # straight tissues whose inner interfaces are given by their two end points (also those that reach the outline), the outline
+        # itself sampled with interior points: resampled with the default options
+        cases.append({"type": "tissue", "seed": int(ck.rng.integers(1 << 30)), "tissue": ["random", "jitter", "hex"][i % 3],
+                      "sites": int(ck.rng.integers(24, 50)), "subset": [None, 0.7][i % 2], "min_ridge": 0.004, "mobius": False, "strength": 1.0,
+                      "kmin": 0, "kmax": [0, 1][(i // 2) % 2], "border_kmin": 3, "param_mode": "uniform", "angle": float(ck.rng.uniform(0, 2 * math.pi)),
+                      "scale": float(10.0 ** ck.rng.uniform(-1, 1)), "shift": [0.0, 0.0], "p_rev": 0.5, "shifts": True, "relabel": bool(i % 2),
+                      "fit": "dlite", "method": None, "ne": int(ck.rng.integers(3, 8))})
     return cases
 
 
@@ -44,8 +52,16 @@ def run_case(ck, case, reqs, pending):
     fit, method, ne = case.get("fit", "dlite"), case.get("method"), case.get("ne")
     if ne is not None and sc.mob is not None and case["kmin"] < 1:
         ne = None
+    # resampling contracts two-point interfaces of the outline (by design, C11): with replace_short_edges left at its default the
+    # tissue stays the same physical tissue only when there is nothing to contract — decided here from the generated mesh
+    replace = False
+    if ne is not None and case.get("border_kmin"):
+        cov = impl.cells_of_vertex(sc.bm.cells)
+        two_point = [ids for ids in sc.bm.ridge_points.values() if len(ids) == 2]
+        replace = not any(len(cov.get(ids[0], ())) < 3 and len(cov.get(ids[1], ())) < 3 for ids in two_point)
+        ck.count("resampled_with_default_replace_short_edges" if replace else "resampled_without_replace")
     try:
-        ph = physical.run_static(sc, fit=fit, method=method, ne=ne, replace=False)
+        ph = physical.run_static(sc, fit=fit, method=method, ne=ne, replace=replace)
     except Exception as ex:
         ck.fail("static inference completes on an equilibrium tissue", f"{type(ex).__name__}: {str(ex)[:160]}", case)
         ck.case(case); return
